@@ -496,8 +496,12 @@ MonStep(cfg, m, w, want) ==
                    /\ (served(s) /\ m.cp[s].ok = 1) => C04Pair(cfg, m.cp[s], cps[s])
              /\ \A s \in 1..NS(cfg) : (served(s) /\ served(cfg.leadStream)) => C04Agree(cfg, lp, cps[s])
              /\ \A s \in 1..NS(cfg) : served(s) =>            \* part ids consecutive across the whole history
-                   LET ps == AllParts(cps[s]) IN
-                   (ps # <<>> /\ m.lastPart[s] >= 0) => ps[1].id <= m.lastPart[s] + 1
+                   \* (judged when at most two segments were completed since the previous observation: parts are listed under the
+                   \*  last two segments only, so a Write that completes three or more segments - several audio access units,
+                   \*  tiny segments - creates parts that no observation can see)
+                   LET ps == AllParts(cps[s])
+                       adv == IF m.cp[s].ok = 1 THEN (cps[s].msn + Len(cps[s].ent)) - (m.cp[s].msn + Len(m.cp[s].ent)) ELSE 0
+                   IN (ps # <<>> /\ m.lastPart[s] >= 0 /\ adv <= 2) => ps[1].id <= m.lastPart[s] + 1
       c05 == IF "c05" \notin want THEN TRUE ELSE
              HasField(w, "probe") => C05Probes(cfg, cps, w.probe)
       sz  == AddSizes(m.segsz, m1.pend, w.emit)
